@@ -5,19 +5,24 @@ import SaModel.Lemmas.C03Finish
 import SaModel.Lemmas.C01NewShape
 import SaModel.Lemmas.C03ObsFinish
 /-
-C06 (closure): the size precondition `Read.physical` of the reader for the arrays built from a TRACED schema with
-dictionary columns — without counting distinct strings.
+C06 (closure): the shape of TRACED schemas that the size precondition `Read.physical` of the reader depends on.
 
 `Read.physical` asks that the value count of every Dictionary array fits `i64` (and bounds FixedSizeList children; traced
-schemas have none).  The builders' capacity accounting already knows the value count: `room b` is at most the number of
-FREE KEYS of every dictionary in the builder tree (`keyRoom idx index.length = 2^32 - index.length` for UInt32 keys), and
-completeness of `push` (`Props.C01.foldl_push_complete`) says `room root0 ≤ room root + Σ vsize`.  So when the samples sum
-to LESS than the fresh head room `2^31 - 1`, the final builder has `1 ≤ room root`, hence every dictionary holds fewer
-than `2^32` values (`physB_of_room`), and `into_array` turns such a state into `physical` arrays (`finish_physical`).
+schemas have none).  What the closure uses of this file (`Props.C06.C06_closure_physical`, through
+`Lemmas/C06PhysSize.lean: traced_sizeOK`):
 
-  physKeysDT    the schema shape: Dictionary(UInt32, Utf8 | LargeUtf8), no FixedSizeList (`closed_physKeys`: every traced
-                schema has it)
-  PhysB         the builder invariant: every dictionary has `index.length < 2^32` and a string value builder
+  physKeysDT          the schema shape: Dictionary(UInt32, Utf8 | LargeUtf8) only, no FixedSizeList
+  closed_physKeys,
+  to_schema_physKeys  every traced schema has it
+
+`Read.physical` of the built arrays itself comes from `Props.C03.toMarrow_physical` (the builders' counting invariant: a
+dictionary holds at most as many values as keys were pushed) with `xs.length ≤ 2^63 - 1`, NOT from this file.
+
+Also in this file, used by NO theorem of `Props/C06*.lean`: a capacity argument for the same conclusion under the stricter
+bound `Σ vsize < 2^31 - 1` — `room b` is at most the number of FREE KEYS of every dictionary in the builder tree (`keyRoom idx
+index.length = 2^32 - index.length` for UInt32 keys), so a final builder with `1 ≤ room root` holds fewer than `2^32` values
+in every dictionary (`PhysB`: every dictionary has `index.length < 2^32` and a string value builder; `physB_of_room`), and
+`into_array` turns such a state into `physical` arrays (`finish_physical`, `buildArrays_physical`).
 -/
 namespace SaModel.Lemmas.C06
 open SaModel SaModel.Build SaModel.Spec SaModel.Lemmas.C03 SaModel.Trace
